@@ -1469,7 +1469,8 @@ impl KotoVm {
                 s.with_bounds(index..index + 1).into()
             }
             Range(r) => {
-                let result: KNumber = if index < 0 {
+                // The result is calculated with i128 to avoid overflows for ranges near the i64 limits
+                let result: i128 = if index < 0 {
                     let Some((end, inclusive)) = r.end() else {
                         return runtime_error!(
                             "Unable to index a {} with {}",
@@ -1478,8 +1479,8 @@ impl KotoVm {
                         );
                     };
 
-                    let end = if inclusive { end + 1 } else { end };
-                    end + index as i64
+                    let end = if inclusive { end as i128 + 1 } else { end as i128 };
+                    end + index as i128
                 } else {
                     let Some(start) = r.start() else {
                         return runtime_error!(
@@ -1488,14 +1489,12 @@ impl KotoVm {
                             index
                         );
                     };
-                    start + index as i64
-                }
-                .into();
+                    start as i128 + index as i128
+                };
 
-                if r.contains(result) {
-                    result.into()
-                } else {
-                    Null
+                match i64::try_from(result) {
+                    Ok(result) if r.contains(result.into()) => result.into(),
+                    _ => Null,
                 }
             }
             Map(map) if map.contains_meta_key(&index_op) => {
